@@ -285,7 +285,9 @@ func TestVerifC11View(t *testing.T) {
 							if up && !cc.Active {
 								fail("viewer-chart-verdict", "chart %q of %q flagged as not in the config although the uploader sent data of that name", cc.Name, cp.Name)
 							}
-							if bname == "approved" && cp.Name == zzvC11OK.Program && !zzvC11Bucketed[cc.Name] && cc.Active != up {
+							// (both ways only where the build that carries all names was itself uploaded: a
+							// configuration can list a name and still exclude every build, e.g. by empty OS lists)
+							if bname == "approved" && inReport[zzvC11OK] && cp.Name == zzvC11OK.Program && !zzvC11Bucketed[cc.Name] && cc.Active != up {
 								fail("viewer-chart-verdict", "chart %q of %q: in-config flag=%v, uploader sent data of that name=%v", cc.Name, cp.Name, cc.Active, up)
 							}
 						}
